@@ -1030,6 +1030,32 @@ STUB = """(* harness/torch2coq.py could NOT translate the current source: %s
 """
 
 
+def _pin_transcript(tree, rel):
+    """the oracles `tr.logits` / `tr.results` stand for plain @property getters recomputed at every access, and
+    `tr.positions` / `tr.values` for plain fields: anything else (functools.cached_property, a setter, a descriptor,
+    a second decorator) is refused"""
+    cls = [n for n in tree.body if isinstance(n, ast.ClassDef) and n.name == "Transcript"]
+    if len(cls) != 1:
+        raise Untranslatable(f"{rel}: expected exactly one class Transcript")
+    body = cls[0].body
+    for attr in ("logits", "results"):
+        defs = [n for n in body if isinstance(n, ast.FunctionDef) and n.name == attr]
+        if len(defs) != 1:
+            _no(cls[0], f"Transcript.{attr}: expected exactly one definition")
+        d = defs[0].decorator_list
+        if not (len(d) == 1 and isinstance(d[0], ast.Name) and d[0].id == "property"):
+            _no(defs[0], f"Transcript.{attr} is not a plain @property (decorators: "
+                         f"{[ast.unparse(x) for x in d]}); the oracle models a value recomputed at every access")
+    for attr in ("positions", "values"):
+        fields = [n for n in body if isinstance(n, ast.AnnAssign) and isinstance(n.target, ast.Name) and n.target.id == attr]
+        others = [n for n in body if isinstance(n, ast.FunctionDef) and n.name == attr]
+        if len(fields) != 1 or others:
+            _no(cls[0], f"Transcript.{attr} is not a plain field")
+    for n in tree.body:
+        if isinstance(n, ast.Assign) and any(isinstance(x, ast.Name) and x.id == "property" for t_ in n.targets for x in ast.walk(t_)):
+            _no(n, "`property` is rebound at module level")
+
+
 def translate(repo_python):
     """-> (coq text, error or None)"""
     repo_python = Path(repo_python)
@@ -1037,6 +1063,8 @@ def translate(repo_python):
         parts, digest = [], hashlib.sha256()
         for (rel, name, params, ret, oracles) in TARGETS:
             src = (repo_python / rel).read_text()
+            if name == "encode_games":
+                _pin_transcript(ast.parse(src), rel)
             fdef = _find_function(ast.parse(src), name, rel)
             digest.update(ast.get_source_segment(src, fdef).encode())
             text = translate_function(src, rel, name, params, ret, oracles)
